@@ -4,8 +4,10 @@ set -u
 P=$1; D=$2; T=${3:-quick}
 cd /verif
 if ! git -C /repo diff --quiet; then echo "/repo is dirty"; exit 2; fi
+cp evidence/$P.json .work/evidence-$P.keep 2>/dev/null
 git -C /repo apply "$D/patch.diff" || { echo "patch does not apply"; exit 2; }
 ./check $P --tier $T > .work/seed-$P.out 2>&1; rc=$?
 git -C /repo checkout -- .
+cp .work/evidence-$P.keep evidence/$P.json 2>/dev/null
 grep -E "VIOLATION|KNOWN|tier=" .work/seed-$P.out | cut -c1-300
 echo "exit=$rc"
